@@ -49,7 +49,13 @@ IPv4_PATTERN = re.compile(
 # Modified from https://stackoverflow.com/a/17871737/1715495
 IPv6_PATTERN = re.compile(
     r"(?:(?<=^)|(?<={enclosing}))".format(enclosing=_IPv6_ENCLOSING)
-    + r"(([0-9a-f]{1,4}:){7,7}[0-9a-f]{1,4}"
+    # Forms with an embedded IPv4 address come first: otherwise a shorter
+    # alternative matches just the part before the first dot
+    + r"(::(ffff(:0{{1,4}})?:)?({octet}\.){{3}}{octet}"
+    r"|([0-9a-f]{{1,4}}:){{1,4}}:({octet}\.){{3}}{octet}".format(
+        octet=_IPv4_OCTET_PATTERN
+    )
+    + r"|([0-9a-f]{1,4}:){7,7}[0-9a-f]{1,4}"
     r"|([0-9a-f]{1,4}:){1,7}:"
     r"|([0-9a-f]{1,4}:){1,6}:[0-9a-f]{1,4}"
     r"|([0-9a-f]{1,4}:){1,5}(:[0-9a-f]{1,4}){1,2}"
@@ -58,10 +64,8 @@ IPv6_PATTERN = re.compile(
     r"|([0-9a-f]{1,4}:){1,2}(:[0-9a-f]{1,4}){1,5}"
     r"|[0-9a-f]{1,4}:((:[0-9a-f]{1,4}){1,6})"
     r"|:((:[0-9a-f]{1,4}){1,7}|:)"
-    r"|fe80:(:[0-9a-f]{0,4}){0,4}%[0-9a-z]{1,}"
-    + r"|::(ffff(:0{{1,4}})?:)?({octet}\.){{3}}{octet}"
-    r"|([0-9a-f]{{1,4}}:){{1,4}}:({octet}\.){{3}}{octet})"
-    r"(?={enclosing}|$)".format(enclosing=_IPv6_ENCLOSING, octet=_IPv4_OCTET_PATTERN),
+    r"|fe80:(:[0-9a-f]{0,4}){0,4}%[0-9a-z]{1,})"
+    + r"(?={enclosing}|$)".format(enclosing=_IPv6_ENCLOSING),
     re.IGNORECASE,
 )
 
